@@ -142,19 +142,21 @@ class ExecutionContext:
                         case LinearIR.VariableAccessScope.FUNCTION_LOCAL:
                             localScope[ref] = localScope[instruction.Variable]
                 case LinearIR.OpCode.STORE:
+                    value = localScope[instruction.Store.Reference]
+
+                    # Arrays and structures are values as well: a variable
+                    # gets its own copy and never shares storage with the
+                    # variable it was assigned from
+                    if isinstance(value, (list, dict)):
+                        value = copy.deepcopy(value)
+
                     match instruction.Scope:
                         case LinearIR.VariableAccessScope.GLOBAL:
-                            self.__globalScope[instruction.Variable] = (
-                                localScope[instruction.Store.Reference]
-                            )
+                            self.__globalScope[instruction.Variable] = value
                         case LinearIR.VariableAccessScope.FUNCTION_ARGUMENT:
-                            args[instruction.Variable] = localScope[
-                                instruction.Store.Reference
-                            ]
+                            args[instruction.Variable] = value
                         case LinearIR.VariableAccessScope.FUNCTION_LOCAL:
-                            localScope[instruction.Variable] = localScope[
-                                instruction.Store.Reference
-                            ]
+                            localScope[instruction.Variable] = value
                 case (
                     LinearIR.OpCode.LOAD_ARRAY
                     | LinearIR.OpCode.VECTOR_GET
